@@ -229,7 +229,7 @@ def main(ctx):
     if not proofs_ok:
         n *= 3
     agree = 0
-    for k in range(n):
+    for k in ctx.loop(n):
         rng = ctx.rng
         profile = 'small' if k % 3 else 'med'
         d = gen.rand_design(rng, profile=profile, nops=rng.randint(3, 10), max_total=40, wide_mem=False, raw=False)
